@@ -28,7 +28,7 @@ structure Tabs where
   pippi : List (Nat × Nat)      -- pippi_s_locs zipped with the signal of pippi_c_locs: (p, ppi_offset + p)
   poppo : List (Nat × Nat)      -- poppo_s_locs zipped with the signal of poppo_c_locs: (p, captured signal)
   ppio : List Nat               -- ppio_s_locs
-deriving Repr
+deriving Repr, DecidableEq
 
 /-- node at `s_nodes` position `p` -/
 def sNodeAt (net : Net) (p : Nat) : NodeD := net.node (net.sNodes.getD p 0)
